@@ -43,6 +43,11 @@ class VisitLeaves(Stage):
     def _pyramid(self, n_items):
         if n_items == 4:
             return Pyramid.new_generic(1)
+        if n_items > 4:
+            # n_items leaves at level 2 (for the back-pressure obligation: more items than the bounded queue holds)
+            leaves = [Pos(2, x, y) for y in range(4) for x in range(4)][:n_items]
+            keep = set(leaves) | {Pos(1, p.x // 2, p.y // 2) for p in leaves}
+            return Pyramid.new_toast_filtered(2, lambda t: t.pos in keep)
         keep = {Pos(1, 0, 0), Pos(1, 1, 1), Pos(1, 1, 0)}
         keep = set(list(sorted(keep))[:n_items]) if n_items < 3 else keep
         return Pyramid.new_toast_filtered(1, lambda t: t.pos in keep)
